@@ -51,7 +51,9 @@ type Tracker struct {
 	Target *Boundary // boundary at which the fault is injected
 	Kind   string    // fail hang delay server-dies-before server-dies-after kill-after session-expire dcs-fail
 	Hit    bool
-	OnHit  func() // extra action at the hit (outside mutexes where possible)
+	// ReturnHost: for the kind old-master-returns-after, the crashed server that comes back right after the boundary
+	ReturnHost string
+	OnHit      func() // extra action at the hit (outside mutexes where possible)
 	// OnInject is told about the injection at the very moment it happens. For SQL boundaries it runs
 	// under the world mutex (w is non-nil) and must not lock the world again; for kill-after it runs
 	// after the statement took effect.
@@ -153,6 +155,10 @@ func (t *Tracker) sql(c *world.StmtCtx) (world.FaultAction, bool) {
 		return world.FaultAction{Before: func(w *world.World) { world.CloseLater(w.CrashLockedExported(host)) }}, true
 	case "server-dies-after":
 		return world.FaultAction{After: func(w *world.World) { world.CloseLater(w.CrashLockedExported(host)) }, DropReply: true}, true
+	case "old-master-returns-after":
+		back := t.ReturnHost
+		// the IO threads that kept retrying reconnect at once and fetch what the returned server has
+		return world.FaultAction{After: func(w *world.World) { w.RestartLockedExported(back); w.StepLocked() }}, true
 	case "kill-after":
 		in := s.InstByName(inst)
 		return world.FaultAction{After: func(w *world.World) { s.KillLocked(in); notify(w) }, DropReply: true}, true
